@@ -40,8 +40,8 @@ def insertSorted (e : Bytes × Bytes) : Buf → Buf
 
 def Buf.sorted (b : Buf) : Buf := b.foldr insertSorted []
 
-/-- apply the mutations `ms` (oldest first) to a buffer -/
-def Buf.apply (b : Buf) (ms : Buf) : Buf := ms.foldl (fun acc e => acc.put e.1 e.2) b
+/-- write the entries of `ms` into `b` (where `ms` names a key twice its first entry wins, as in `Buf.get`) -/
+def Buf.apply (b : Buf) (ms : Buf) : Buf := ms.foldr (fun e acc => acc.put e.1 e.2) b
 
 def minKey : List Bytes → Bytes → Bytes
   | [], m => m
@@ -62,6 +62,11 @@ structure Cfg where
   deriving Repr
 
 inductive FlushRes | ok | err
+  deriving DecidableEq, Repr
+
+/-- `ttlManager.state` of the committer: `run` (after the batch holding the primary was flushed) moves uninit → running,
+    `close` moves running → closed *only*; the flush callback refuses to flush when it reads `closed` -/
+inductive TTL | uninit | running | closed
   deriving DecidableEq, Repr
 
 /-- how a running flush function ends: result and, when it fails, how many mutations (in key order) reached the store -/
@@ -96,8 +101,8 @@ structure PState where
   gen : Nat := 0
   /-- `batchGetCache` -/
   cache : Option Cache := none
-  /-- callback layer: `committer.state == stateClosed` -/
-  closed : Bool := false
+  /-- callback layer: `committer.ttlManager.state` -/
+  ttl : TTL := .uninit
   /-- callback layer: `pipelinedCommitInfo.pipelinedStart/End`, `committer.primaryKey` (empty = unset) -/
   pStart : Bytes := []
   pEnd : Bytes := []
@@ -204,14 +209,27 @@ def complete (s : PState) (c : Completion) : PState :=
   | none => s
   | some f =>
     let ms := match c.res with
-      | .ok => f.sorted
+      | .ok => f
       | .err => f.sorted.take c.applied
     { s with
       store := s.store.apply ms
       running := false
       errCh := some c.res
-      closed := s.closed || (s.cfg.layer && c.res == .err)
+      ttl := if s.cfg.layer then
+          (match c.res with
+           | .ok => if s.ttl == .uninit && f.keys.contains s.primary then .running else s.ttl   -- `c.run` after the primary batch
+           | .err => if s.ttl == .running then .closed else s.ttl)                              -- `committer.close()`
+        else s.ttl
       active := s.active.filter (· != s.gen) }
+
+/-- the flush callback's "update bounds" block: `if len(pipelinedStart) == 0 || pipelinedStart > startKey`, same for the end -/
+def updBounds (b : Bytes × Bytes) (ks : List Bytes) : Bytes × Bytes :=
+  let lo := minKey ks (ks.headD [])
+  let hi := maxKey ks (ks.headD [])
+  (if b.1.isEmpty || Bytes.lt lo b.1 then lo else b.1, if b.2.isEmpty || Bytes.lt b.2 hi then hi else b.2)
+
+/-- the bounds after the callback has seen the non-empty key batches `bs` (oldest first) -/
+def boundsOf (bs : List (List Bytes)) : Bytes × Bytes := bs.foldl updBounds ([], [])
 
 /-- `Flush` past all checks: swap the buffers, bump the generation, call the flush function in a goroutine.
     With the callback layer the function returns at once when the committer is closed (error) or the buffer is
@@ -221,20 +239,19 @@ def start (s : PState) : PState × Out :=
   let g := s.gen + 1
   let s1 := { s with flushing := some f, mbuf := [], gen := g, errCh := none, hist := (g, f) :: s.hist }
   if s.cfg.layer then
-    if s.closed then
+    if s.ttl == .closed then
       ({ s1 with running := false, errCh := some .err }, .flushed g f false)
     else if f.isEmpty then
       ({ s1 with running := false, errCh := some .ok }, .flushed g f false)
     else
       let ks := f.keys
-      let lo := minKey ks (ks.headD [])
-      let hi := maxKey ks (ks.headD [])
+      let nb := updBounds (s.pStart, s.pEnd) ks
       -- `if len(c.primaryKey) == 0 { primaryKey = key }` over the mutations in key order
       let first := (f.sorted.keys.find? (fun k => !k.isEmpty)).getD []
       ({ s1 with
           running := true, active := g :: s.active
-          pStart := if s.pStart.isEmpty || Bytes.lt lo s.pStart then lo else s.pStart
-          pEnd := if s.pEnd.isEmpty || Bytes.lt s.pEnd hi then hi else s.pEnd
+          pStart := nb.1
+          pEnd := nb.2
           primary := if s.primary.isEmpty then first else s.primary
           lockKeys := ks ++ s.lockKeys },
        .flushed g f true)
@@ -310,9 +327,8 @@ def specStep (sp : Spec) (op : Op) (out : Out) : Spec :=
   | .stage => { sp with curSaved := sp.cur :: sp.curSaved, pendSaved := sp.pending :: sp.pendSaved }
   | .release => { sp with curSaved := sp.curSaved.tail, pendSaved := sp.pendSaved.tail }
   | .cleanup =>
-    match sp.curSaved, sp.pendSaved with
-    | c :: cs, p :: ps => { sp with cur := c, curSaved := cs, pending := p, pendSaved := ps }
-    | _, _ => sp
+    { sp with cur := sp.curSaved.headD sp.cur, curSaved := sp.curSaved.tail,
+              pending := sp.pendSaved.headD sp.pending, pendSaved := sp.pendSaved.tail }
   | .flush _ _ _ =>
     match out with
     | .flushed _ _ _ => { sp with handed := sp.pending :: sp.handed, pending := [] }
